@@ -6,7 +6,8 @@
                      exactly these strings (identity elsewhere); badurls: hex list of strings Url::parse refuses
    optional text   : "~" absent, "-" empty, else hex;   tiers: hex list (one raw argument each)
    nodes           : "~" or comma-separated hosthex:port
-   input           : F:<namehex>:<len>:<md5hex> | S:<len>:<md5hex> | D:<namehex>:<files>
+   input           : F:<namehex>:<len>:<md5hex> | S:<len>:<md5hex> | D:<namehex>:<files> | O:<namehex>:<files> (taken in the
+                     order given: cases with --sort-by)
                      files = "~" or ;-separated  comp/comp/..:<len>:<md5hex>   (components hex), in any order:
                      MetainfoOrder.walk_order puts them in the walker's order
    reply           : OK <hex of the bytes written> | NONE (create refuses before writing) *)
@@ -28,6 +29,11 @@ let mi_input s = match String.split_on_char ':' s with
       let fs = String.concat ":" rest in
       (* the entries come in the order the generator made them; the model's walker sorts them *)
       InDir (bytes_of_hex n, walk_order (if fs = "~" then [] else List.map mi_file (String.split_on_char ';' fs)))
+  | "O" :: n :: rest ->
+      (* entries already in the order requested with --sort-by (the sort keys are C06's model; here the order is the
+         documented one computed by the check's oracle) *)
+      let fs = String.concat ":" rest in
+      InDir (bytes_of_hex n, (if fs = "~" then [] else List.map mi_file (String.split_on_char ';' fs)))
   | _ -> failwith "input"
 let () = register "mi" (function
   | [normtab; hosttab; bad; git; announce; tiers; comment; source; nodes; priv; update_url; name; plen; md5;
